@@ -159,6 +159,28 @@ Fixpoint run_steps (n : nat) (cs : list ctrl) (stored : bool) (fr : fstate) : li
   end.
 Definition solve_is_fresh (fr : fstate) : bool := forallb fr all_parts.
 
+(* ---- histories with diverging time steps (continue_on_divergence=True).
+   A step whose power flow raises is reported as failed (None).  Where the error surfaces decides what the next step sees:
+   * inside the control loop (_evaluate_net, run_control.py:164-188) net._ppc is set to None, so the next step runs a full
+     power flow;
+   * in the initial run of run_control (net_initialization, :145-154: some controller has initial_run=True - every class but
+     ConstControl) nothing is reset: with recycling active every later step is a recycled power flow that starts from the
+     diverged internals and fails as well ("poisoned"). *)
+Definition has_initial_run (cs : list ctrl) : bool :=
+  existsb (fun c => match c with CConst _ _ _ => false | _ => true end) cs.
+Definition poisons (cs : list ctrl) : bool :=
+  has_initial_run cs && match recyclability cs with Some _ => true | None => false end.
+Fixpoint run_steps_div (divs : list bool) (cs : list ctrl) (stored poisoned : bool) (fr : fstate) : list (option fstate) :=
+  match divs with
+  | [] => []
+  | d :: ds =>
+      if poisoned then None :: run_steps_div ds cs stored true fr
+      else if d then None :: run_steps_div ds cs false (poisons cs) fr
+      else let fr' := time_step cs stored fr in Some fr' :: run_steps_div ds cs true false fr'
+  end.
+(* G12c: a diverging step cannot poison the following ones *)
+Definition G12c (cs : list ctrl) : bool := negb (poisons cs).
+
 (* spec: a single controller is sound when what it writes is rebuilt (or recycling is off) *)
 Definition sound (c : ctrl) : bool :=
   match ctrl_flags c with
@@ -282,4 +304,13 @@ Definition run_ts (cs : list ctrl) (n : nat) (l : list logv) : out :=
   OL [ olist (fun c => oflags (ctrl_flags c)) cs;
        oflags rec;
        olist (fun fr => OB (solve_is_fresh fr)) (run_steps n cs false all_fresh);
+       owres (ts_writer rec l) ].
+
+(* with diverging steps: per step "failed" (ONone) or whether the solve was fresh *)
+Definition run_ts_div (cs : list ctrl) (divs : list bool) (l : list logv) : out :=
+  let rec := recyclability cs in
+  OL [ olist (fun c => oflags (ctrl_flags c)) cs;
+       oflags rec;
+       olist (fun r => match r with None => ONone | Some fr => OB (solve_is_fresh fr) end)
+             (run_steps_div divs cs false false all_fresh);
        owres (ts_writer rec l) ].
